@@ -27,7 +27,8 @@ ASSUMPTIONS = [
     "myokit's SBML importer naming convention (c.s_amount, c.size, global.p)"]
 REQUIRED = ['gen', 'lib:pk', 'lib:koch', 'lib:koch_r', 'lib:erlotinib', 'sens', 'reduced', 'renamed', 'tied_times',
             'intermediate_output', 'order_differs', 'model_order_differs', 'derived_const', 'refix', 'refix:same_count',
-            'admin:indirect', 'rename_then_admin', 'dosed:sens', 'dosed:global_state', 'negative_initial_value', 'regimen_through_reduced_model', 'regimen_replaced:zero_dose']
+            'admin:indirect', 'rename_then_admin', 'dosed:sens', 'dosed:global_state', 'negative_initial_value', 'regimen_through_reduced_model', 'regimen_replaced:zero_dose',
+            'admin:indirect:model_has_dose_compartment:dosed']
 LIBS = ['pk', 'koch', 'koch_r', 'erlotinib']
 
 
@@ -54,8 +55,14 @@ def _spec(draw):
         theta = gen.distinct(draw(gen.vec(gen.logu(0.2, 3.0), n)))
         return dict(src='lib', lib=lib, theta=theta, times=times, tied=tied, sens=sens)
     ms = sbmlgen.draw_model(draw)
+    if gen.chance(draw, 0.12):
+        # the model has a compartment called 'dose' (a depot of its own) already: the compartment an indirect route adds
+        # gets another name, and is the one that is dosed
+        ms['comps'][0]['id'] = 'dose'
+        if gen.chance(draw, 0.7):
+            ms['comps'][0]['sid'] = 'drug'
     admin = None
-    if gen.chance(draw, 0.3):
+    if gen.chance(draw, 0.3 if sbmlgen.depot(ms) == 'dose' else 0.85):
         # PKPD flavour: a route of administration (no doses scheduled); the indirect route adds a depot state and
         # an absorption rate in the middle of the published parameter order
         admin = dict(comp=draw(st.integers(0, len(ms['comps']) + len(ms['gstates']) - 1)), direct=gen.chance(draw, 0.4),
@@ -133,6 +140,8 @@ def classify(spec):
             labs.append('refix')
         if spec.get('admin'):
             labs.append('admin:' + ('direct' if spec['admin']['direct'] else 'indirect'))
+            if sbmlgen.depot(ms) != 'dose' and not spec['admin']['direct']:
+                labs.append('admin:indirect:model_has_dose_compartment' + (':dosed' if spec['admin'].get('reg') else ''))
             if spec['admin'].get('reg'):
                 labs.append('dosed')
                 if spec['admin'].get('reg_decoy'):
